@@ -492,3 +492,57 @@ pub fn create_line<S: ShortGroupSignatureScheme>(credentials: &IndexMap<String, 
     }
     Some(format!("cr.ok {} {}", j(creds, ";"), j(stmts, ";")))
 }
+
+/// model lines for the predicate verifiers that share a response with the signature proof (commitment,
+/// verifiable encryption): the recomputed commitments the real verifier hashed for `q` vs. the model's
+/// `commitmentRecommit` / `elgamalRecommit` fed with the model's own sorted lookup of the linked response
+pub fn recommit_lines<S: ShortGroupSignatureScheme>(em: &mut Emitter, suite: &str, schema: &PresentationSchema<S>, q: &Presentation<S>, nonce: &[u8]) {
+    let (_, _, log) = verify_logged(q, schema, nonce);
+    let items = crate::adv::main_items(&log);
+    let v = serde_json::to_value(q).unwrap_or(Value::Null);
+    let off = if suite == "bbs" { 0 } else { 2 };
+    let j = |v: Vec<String>| if v.is_empty() { "-".to_string() } else { v.join(",") };
+    // the items hashed right after the ("" = statement id) marker of statement `id`
+    let after = |id: &str, label: &[u8]| -> Option<String> {
+        let start = items.iter().position(|(l, d)| l.is_empty() && d == id.as_bytes())?;
+        items[start + 1..].iter().take_while(|(l, _)| !l.is_empty()).find(|(l, _)| l == label).map(|(_, d)| hexs(d))
+    };
+    let sig_part = |reference_id: &str| -> Option<(usize, String, String)> {
+        let n = match schema.statements.get(reference_id)? {
+            Statements::Signature(ss) => ss.issuer.schema.claims.len(),
+            _ => return None,
+        };
+        let sp = &v["proofs"][reference_id]["Signature"];
+        let rvl: Vec<String> = sp["disclosed_messages"].as_object()?.keys().cloned().collect();
+        let proof: Vec<String> = sp["pok"]["proof"].as_array()?.iter().map(|x| x.as_str().unwrap_or("").to_string()).collect();
+        Some((n, j(rvl), j(proof)))
+    };
+    for st in schema.statements.values() {
+        match st {
+            Statements::Commitment(x) => {
+                let pr = &v["proofs"][&x.id]["Commitment"];
+                if let (Some((n, rvl, proof)), Some(got), Some(cc), Some(sb)) = (sig_part(&x.reference_id), after(&x.id, b"blind commitment"), pr["commitment"].as_str(), pr["blinder_proof"].as_str()) {
+                    em.op(
+                        format!("cm.recommit {} {} {} {} {} {} {} {} {} {}", n, off, rvl, proof, x.claim, sc_hex(&q.challenge), sb, g1_hex_c(&x.message_generator), g1_hex_c(&x.blinder_generator), cc),
+                        got,
+                    );
+                }
+            }
+            Statements::VerifiableEncryption(x) => {
+                let pr = &v["proofs"][&x.id]["VerifiableEncryption"];
+                if let (Some((n, rvl, proof)), Some(r1), Some(r2), Some(c1), Some(c2), Some(sb)) =
+                    (sig_part(&x.reference_id), after(&x.id, b"r1"), after(&x.id, b"r2"), pr["c1"].as_str(), pr["c2"].as_str(), pr["blinder_proof"].as_str())
+                {
+                    em.op(
+                        format!(
+                            "eg.recommit {} {} {} {} {} {} {} {} {} {} {} {}",
+                            n, off, rvl, proof, x.claim, sc_hex(&q.challenge), sb, g1_hex_c(&G1Projective::GENERATOR), g1_hex_c(&x.message_generator), g1_hex_c(&x.encryption_key.0), c1, c2
+                        ),
+                        format!("{} {}", r1, r2),
+                    );
+                }
+            }
+            _ => {}
+        }
+    }
+}
